@@ -33,7 +33,8 @@ def judge_progress(pages, leaves):
         new = [w for w in own if w not in seen]
         seen.update(own)
         if own and not new:
-            bad.append(('page-shows-only-old-content', dict(page=pi)))
+            kinds = sorted(set(lf['kind'] for lf in leaves for w in own if w in lf['words']))
+            bad.append(('page-shows-only-old-content', dict(page=pi, kind='+'.join(kinds))))
         if not own:
             empty += 1
     if empty > len(leaves) + 2:
@@ -88,7 +89,9 @@ def check(run):
             keys.append((H, len(o), hash(html) & 0xffff))
         for clause, detail in (judge_fit(o) + judge_progress(o, leaves))[:1]:
             run.fail('%s %s' % (clause, detail), {'stream': 'wide-fit', 'html': html, 'clause': clause, 'detail': detail, 'leaves': leaves},
-                     signature='fit:%s:%s' % (clause, detail.get('kind', '')))
+                     signature=('table-split:cell-content-once[restart-after-empty-fragment]'
+                                if clause == 'page-shows-only-old-content' and detail.get('kind') == 'cell'
+                                else 'fit:%s:%s' % (clause, detail.get('kind', ''))))
     run.count('wide-fit', len(docs), keys, samples=[docs[0][0][-400:]])
     run.stream_info('wide-fit', items=nitems, rule='widegen.py; every in-flow LineBox and TableRowBox of every page judged; '
                     'non-trivial = more than one page')
